@@ -67,7 +67,7 @@ def sticky_round_gen(A, parts, members, prev_gen, limit_s=3.0):
     return canon(res, members)
 
 
-def returning_chain(A, rng, identical):
+def returning_chain(A, rng, identical, only_one=False):
     """three rounds: everybody (generation 1); 1-2 members away, possibly replaced (generation 2); the absent
     members return still reporting their generation-1 assignment while the others report generation 2.
     Returns (parts, round-2 members, round-3 members, r2, r3).  Everybody keeps its subscription (a stale
@@ -78,7 +78,7 @@ def returning_chain(A, rng, identical):
     members = [(m, base if identical else sorted(rng.sample(range(nt), rng.randrange(1, nt + 1))))
                for m in range(rng.randrange(2, 6))]
     r1 = sticky_round_gen(A, parts, members, {})
-    away = rng.sample(members, 1 if len(members) < 3 or rng.random() < 0.5 else 2)
+    away = rng.sample(members, 1 if only_one or len(members) < 3 or rng.random() < 0.5 else 2)
     rest = [x for x in members if x not in away]
     for j in range(rng.randrange(0, 3)):
         rest = rest + [(50 + j, base if identical else sorted(rng.sample(range(nt), rng.randrange(1, nt + 1))))]
@@ -243,12 +243,13 @@ def run(ctx):
     for _ in range(n_ov):
         if hangs >= 2:
             break
-        parts = [(t, list(range(rng.randrange(2, 7)))) for t in range(3)]
-        members = [(m, rng.choice(subsets3)) for m in range(rng.randrange(2, 4))]
+        big = rng.random() < 0.5        # larger topics, more joiners: a partition can move twice in one rebalance
+        parts = [(t, list(range(rng.randrange(6, 11) if big else rng.randrange(2, 7)))) for t in range(3)]
+        members = [(m, rng.choice(subsets3)) for m in range(rng.randrange(1 if big else 2, 4))]
         try:
             r1 = sticky_round(A, parts, members, None, -1)
             mem2 = [(m, (rng.choice(subsets3) if rng.random() < 0.25 else sb)) for m, sb in members] + \
-                   [(30 + j, rng.choice(subsets3)) for j in range(rng.randrange(1, 3))]
+                   [(30 + j, rng.choice(subsets3)) for j in range(rng.randrange(1, 5 if big else 3))]
             if rng.random() < 0.2 and len(mem2) > 2:
                 mem2.pop(rng.randrange(len(members)))
             sticky_round(A, parts, mem2, tomap(r1), -1)
@@ -265,7 +266,10 @@ def run(ctx):
         if hangs >= 2:
             break
         try:
-            parts, m2, m3, r2, r3 = returning_chain(A, rng, True)
+            # judged with ONE returning member only: with two returning members whose stale claims collide the
+            # unchanged assignor itself moves a partition between two members of the previous round (they are not
+            # "new members" in the sense of clause (c): they carry user data), found at seed 5
+            parts, m2, m3, r2, r3 = returning_chain(A, rng, True, only_one=True)
             q("no-old-to-old", r2, r3, ",".join(str(m) for m, _ in m2),
               {"clause": "c-returning", "parts": parts, "members": m2, "round3": m3})
             n_pairs += 1
